@@ -248,6 +248,11 @@ fn gen_session(rng: &mut Rng, pool: &[Program]) -> Session {
         if BRIDGE_ENV_SKIP.contains(&name) {
             continue;
         }
+        if name == "PATH" {
+            // the session's directory has stand-in tools in bin/ (see run_session)
+            env.push((name.to_string(), (*rng.pick(&["$SCRATCH/bin", "$SCRATCH/bin:/usr/bin:/bin", "/usr/bin:/bin"])).to_string()));
+            continue;
+        }
         env.push((name.to_string(), rng.pick(&ENV_VALUES).to_string()));
     }
     Session {
@@ -338,10 +343,22 @@ fn run_session(cmd: &RustcCmd, preload: &Path, dir: &Path, s: &Session) -> Resul
             _ => a.clone(),
         })
         .collect();
+    // stand-in external tools a macro might spawn (they copy stdin and append a marker item)
+    {
+        use std::os::unix::fs::PermissionsExt;
+        let bin = dir.join("bin");
+        let _ = std::fs::create_dir_all(&bin);
+        for tool in ["rustfmt", "rustc", "cargo", "git"] {
+            let path = bin.join(tool);
+            if std::fs::write(&path, "#!/bin/sh\ncat\necho ' const _SIMULATED_TOOL_OUTPUT : () = () ;'\n").is_ok() {
+                let _ = std::fs::set_permissions(&path, std::fs::Permissions::from_mode(0o755));
+            }
+        }
+    }
     let mut c = Command::new(&cmd.program);
     c.args(&args).current_dir(&cwd).env_clear();
     for (k, v) in &s.env {
-        c.env(k, v);
+        c.env(k, v.replace("$SCRATCH", &dir.display().to_string()));
     }
     c.env("TMPDIR", dir)
         .env("LD_PRELOAD", preload)
